@@ -26,6 +26,7 @@ impl Prop for C17 {
             allow_reuse: rng.chance(1, 5),
             allow_fold: false,
             files: Vec::new(),
+            jit: false,
         };
         gen_history(rng, &shape).to_ops()
     }
